@@ -105,7 +105,7 @@ def classify(cls, case, det):
 def run(ctx):
     ctx.prove('LPVerif.Props.C12', 'LPVerif/Props/C12.lean')
     build = ctx.build()
-    n = 120 if ctx.quick else 2500
+    n = 200 if ctx.quick else 3000
     if ctx.broken:
         n *= 4
     cases = []
